@@ -163,8 +163,8 @@ def okAfter (cfg : Cfg) : List Alias → List (Alias × Sel) → List Alias
 
 /-- operands of a set operation in FROM -/
 def fromSetop : Option Expr → List Sel
-  | some (.col (.setop _ ss) _) => ss
-  | some (.setop _ ss) => ss
+  | some (.col (.setOp _ ss) _) => ss
+  | some (.setOp _ ss) => ss
   | _ => []
 
 /-- every scan of the statement is confined -/
